@@ -1,5 +1,5 @@
 (* C13 model driver.  One input line per case:
-     num exact ; ord_0 ; ord_1 ; ... # <B world> # <D world> # <S world of the impl, or ->
+     num[,num..] exact ; ord_0 ; ord_1 ; ... # <B world> # <D world> # <S world of the impl, or ->
    world = rank dumps joined by " / ", rank dump = "I g.a.l.p ... R q:g.la.ra.k,... ... Y s [N ...]"
    ord_r = sources in the order rank r processes them ("-" = none), num = numberer (0 default, 1 old numbers, 2 1000+g).
    Output (one line):
@@ -90,13 +90,16 @@ let () =
       let parts = split_on line " # " in
       let hd, bs, ds, ss = match parts with [a; b; c; d] -> a, b, c, d | _ -> failwith "bad line" in
       let hp = List.map String.trim (String.split_on_char ';' hd) in
-      let num, exact = match words (List.hd hp) with [a; b] -> int_of_string a, b = "1" | _ -> failwith "bad head" in
+      (* num = one numberer mode for all ranks, or a comma separated list with one mode per rank (asymmetric configuration) *)
+      let nums, exact = match words (List.hd hp) with
+        | [a; b] -> Array.of_list (List.map int_of_string (String.split_on_char ',' a)), b = "1" | _ -> failwith "bad head" in
+      let num_of ri = if Array.length nums = 1 then nums.(0) else if ri < Array.length nums then nums.(ri) else 2 in
       let orders = Array.of_list (List.map (fun s -> if s = "-" || s = "" then [] else
                       List.map (fun x -> n_of_int (int_of_string x)) (String.split_on_char ',' s)) (List.tl hp)) in
       let bw = parse_world bs and dw = parse_world ds in
       let barr = Array.of_list bw in
       let numb (r : n) (g : n) : n =
-        match num with
+        match num_of (int_of_n r) with
         | 0 -> c13_default_numberer g
         | 1 -> (let ri = int_of_n r in
                 let old = if ri < Array.length barr then List.filter (fun p -> p.c13_g = g) barr.(ri).o_iset else [] in
